@@ -35,7 +35,7 @@ func (ex *Exec) prim(fn *ssa.Function, args []Value) (Value, bool) {
 	if len(args) > 0 {
 		if n, ok := args[0].(string); ok && strings.HasPrefix(fn.Name(), "vp") {
 			switch fn.Name() {
-			case "vpBool", "vpInt", "vpInt64", "vpUint", "vpUint64", "vpByte", "vpIntRange", "vpChoose", "vpBig", "vpBigBits", "vpBigRange", "vpPrime", "vpModulus", "vpAtom", "vpOrder":
+			case "vpBool", "vpInt", "vpInt64", "vpUint", "vpUint64", "vpByte", "vpIntRange", "vpChoose", "vpBig", "vpBigBits", "vpBigRange", "vpPrime", "vpModulus", "vpAtom", "vpOrder", "vpHalfOrder":
 				ex.noteVar(n)
 			}
 		}
@@ -147,6 +147,8 @@ func (ex *Exec) prim(fn *ssa.Function, args []Value) (Value, bool) {
 		return ex.primAtom(ex.str(args[0]), args[1]), true
 	case "vpOrder":
 		return ex.primOrder(ex.str(args[0]), args[1]), true
+	case "vpHalfOrder":
+		return ex.primHalfOrder(ex.str(args[0]), args[1]), true
 	case "vpPrime":
 		// a fresh value flagged prime (isprime asserted) in [lo,hi]
 		lo, _ := bigOf(args[1])
